@@ -150,6 +150,7 @@ def run(tier, seed):
     runner.run_generated(rep, gen(tier), check_case, n, runner.tier_workers(tier),
                          shrink_s=20 if tier == 'quick' else 120)
     std.run_boundary(rep, tier, check_case, only=['bitmap_', 'subsets_'])
+    std.run_named(rep, gmsg.same_shape_other_bitmap_cases(), check_case, 'same descriptors, other bitmap', 'same_descriptors_other_bitmap')
     fuzz.run_structured(rep, 'checks.c07', _fuzz_gen, tier)
     return rep.finish()
 
